@@ -131,3 +131,17 @@ def window_means(values, width):
         b = min(n - 1, i + h)
         out.append(math.fsum(vals[a:b + 1]) / (b - a + 1))
     return out
+
+
+def window_absmax(values, width):
+    """max |x| over the same window (the scale each window mean is accurate to) and the window length."""
+    vals = [abs(float(v)) for v in values]
+    n = len(vals)
+    h = int(width) // 2
+    out, cnt = [], []
+    for i in range(n):
+        a = max(0, i - h)
+        b = min(n - 1, i + h)
+        out.append(max(vals[a:b + 1]))
+        cnt.append(b - a + 1)
+    return out, cnt
